@@ -732,6 +732,9 @@ type storeJ struct {
 	Current bool   `json:"current"` // cached status is Current
 	Cluster any    `json:"cluster"` // canonical tree or null
 	HasK    bool   `json:"hasCluster"`
+	// the cache holds an entry WITHOUT an object body under this status (what an earlier failed lookup — NotFound — or the
+	// status watcher leaves behind): never a reason not to ask the cluster
+	NilCached string `json:"nilCached,omitempty"`
 }
 
 type mutIn struct {
@@ -840,6 +843,10 @@ func runMut(in mutIn) (out map[string]any) {
 			rc.Put(mutation.ResourceReference{Kind: s.Kind, Group: s.Group, Name: s.Name, Namespace: s.NS}.ToObjMetadata(),
 				cache.ResourceStatus{Resource: u, Status: st})
 		}
+		if s.NilCached != "" && !s.HasC {
+			rc.Put(mutation.ResourceReference{Kind: s.Kind, Group: s.Group, Name: s.Name, Namespace: s.NS}.ToObjMetadata(),
+				cache.ResourceStatus{Resource: nil, Status: status.Status(s.NilCached)})
+		}
 		if s.HasK {
 			kd, err := decodeK8s(s.Cluster)
 			if err != nil {
@@ -925,6 +932,9 @@ func genMutCase(rng *proto.Rng, region bool) mutIn {
 		case 1:
 			st.HasK, st.Cluster = true, canon(o)
 			srcTrees[d.name] = o
+			if rng.Chance(1, 3) {
+				st.NilCached = proto.Pick(rng, []string{"NotFound", "NotFound", "Unknown", "Current", "Terminating"})
+			}
 		case 2:
 			stale := c18MkObj(gvOf(d.group, d.version), d.kind, d.ns, d.name, map[string]any{"data": k8sify(genObject(rng, 1, 2))})
 			st.HasC, st.Current, st.Cached = true, false, canon(stale)
